@@ -3,6 +3,7 @@
 package simioutil
 
 import (
+	"io"
 	"io/fs"
 	"io/ioutil"
 	"os"
@@ -71,5 +72,153 @@ func Remove(name string) error {
 	if simrt.FSRemove(name) != simrt.FSOK {
 		return &fs.PathError{Op: "remove", Path: name, Err: syscall.ENOENT}
 	}
+	return nil
+}
+
+// File replaces *os.File for files of the lease package (os.OpenFile, os.Create, os.Open are
+// rewritten to the functions below). Every mutation goes to the simulated disk as one recorded
+// operation carrying the complete new content, so crash points can be enumerated over it.
+type File struct {
+	name   string
+	flag   int
+	pos    int
+	closed bool
+	real   *os.File
+}
+
+func OpenFile(name string, flag int, perm os.FileMode) (*File, error) {
+	if !simrt.Active() {
+		f, err := os.OpenFile(name, flag, perm)
+		if err != nil {
+			return nil, err
+		}
+		return &File{name: name, real: f}, nil
+	}
+	_, code := simrt.FSRead(name)
+	switch {
+	case code == simrt.FSNotExist && flag&os.O_CREATE == 0:
+		return nil, &fs.PathError{Op: "open", Path: name, Err: syscall.ENOENT}
+	case code == simrt.FSOK && flag&os.O_CREATE != 0 && flag&os.O_EXCL != 0:
+		return nil, &fs.PathError{Op: "open", Path: name, Err: syscall.EEXIST}
+	case code == simrt.FSEIO:
+		return nil, &fs.PathError{Op: "open", Path: name, Err: syscall.EIO}
+	}
+	if code == simrt.FSNotExist || flag&os.O_TRUNC != 0 {
+		if c := simrt.FSWrite(name, nil); c != simrt.FSOK {
+			return nil, &fs.PathError{Op: "open", Path: name, Err: syscall.EIO}
+		}
+	}
+	return &File{name: name, flag: flag}, nil
+}
+
+func Create(name string) (*File, error) {
+	return OpenFile(name, os.O_RDWR|os.O_CREATE|os.O_TRUNC, 0666)
+}
+
+func Open(name string) (*File, error) { return OpenFile(name, os.O_RDONLY, 0) }
+
+func (f *File) Name() string { return f.name }
+
+func (f *File) Write(b []byte) (int, error) {
+	if f.real != nil {
+		return f.real.Write(b)
+	}
+	if f.closed {
+		return 0, fs.ErrClosed
+	}
+	if f.flag&(os.O_WRONLY|os.O_RDWR) == 0 {
+		return 0, &fs.PathError{Op: "write", Path: f.name, Err: syscall.EBADF}
+	}
+	cur, code := simrt.FSRead(f.name)
+	if code != simrt.FSOK {
+		cur = nil
+	}
+	if f.flag&os.O_APPEND != 0 {
+		f.pos = len(cur)
+	}
+	n := f.pos + len(b)
+	if n < len(cur) {
+		n = len(cur) // bytes beyond the written range stay (no truncation)
+	}
+	out := make([]byte, n)
+	copy(out, cur)
+	copy(out[f.pos:], b)
+	switch simrt.FSWrite(f.name, out) {
+	case simrt.FSOK:
+		f.pos += len(b)
+		return len(b), nil
+	case simrt.FSENOSPC:
+		return 0, &fs.PathError{Op: "write", Path: f.name, Err: syscall.ENOSPC}
+	default:
+		return 0, &fs.PathError{Op: "write", Path: f.name, Err: syscall.EIO}
+	}
+}
+
+func (f *File) WriteString(s string) (int, error) { return f.Write([]byte(s)) }
+
+func (f *File) Read(b []byte) (int, error) {
+	if f.real != nil {
+		return f.real.Read(b)
+	}
+	cur, code := simrt.FSRead(f.name)
+	if code != simrt.FSOK {
+		return 0, &fs.PathError{Op: "read", Path: f.name, Err: syscall.EIO}
+	}
+	if f.pos >= len(cur) {
+		return 0, io.EOF
+	}
+	n := copy(b, cur[f.pos:])
+	f.pos += n
+	return n, nil
+}
+
+func (f *File) Seek(offset int64, whence int) (int64, error) {
+	if f.real != nil {
+		return f.real.Seek(offset, whence)
+	}
+	switch whence {
+	case io.SeekStart:
+		f.pos = int(offset)
+	case io.SeekCurrent:
+		f.pos += int(offset)
+	case io.SeekEnd:
+		cur, _ := simrt.FSRead(f.name)
+		f.pos = len(cur) + int(offset)
+	}
+	if f.pos < 0 {
+		f.pos = 0
+	}
+	return int64(f.pos), nil
+}
+
+func (f *File) Truncate(size int64) error {
+	if f.real != nil {
+		return f.real.Truncate(size)
+	}
+	cur, _ := simrt.FSRead(f.name)
+	out := make([]byte, size)
+	copy(out, cur)
+	if simrt.FSWrite(f.name, out) != simrt.FSOK {
+		return &fs.PathError{Op: "truncate", Path: f.name, Err: syscall.EIO}
+	}
+	return nil
+}
+
+// Sync is a no-op: the simulated disk makes every recorded operation durable in order.
+func (f *File) Sync() error {
+	if f.real != nil {
+		return f.real.Sync()
+	}
+	return nil
+}
+
+func (f *File) Close() error {
+	if f.real != nil {
+		return f.real.Close()
+	}
+	if f.closed {
+		return fs.ErrClosed
+	}
+	f.closed = true
 	return nil
 }
